@@ -721,3 +721,42 @@ def with_decode_variants(rng, scs, sid0, positions=2, all_levels=False):
             out.append(c)
             sid += 1
     return out
+
+
+# ------------------------------------------------------------------ spec -> impl: the PDU universe enumerated by TLC
+def tlc_pdu_universe(workdir):
+    import subprocess
+    import shutil
+    cfg = os.path.join(workdir, "vec.cfg")
+    consts = {"MaxReadBits": 3, "MaxReadRegs": 2, "MaxWriteCoils": 3, "MaxWriteRegs": 2, "AddrSpace": 8, "Units": "{1}",
+              "ProbeUnits": "{1}", "Fcs": "{1, 2, 3, 4, 5, 6, 15, 16, 0, 7, 43, 129, 255}", "Bytes": "{0, 1, 2, 255}",
+              "TailBytes": "{0, 1, 255}", "HoleSet": "<- HoleSetDef", "Policies": '{"none"}', "Framings": '{"tcp"}',
+              "ErrorRepliesBeforeUnitLookup": "FALSE"}
+    vf.write_cfg(cfg, "Spec", consts)
+    out = os.path.join(workdir, "pdus.json")
+    env = dict(os.environ)
+    env.update({"OUT": out, "JAVA_TOOL_OPTIONS": "-Xss256m -Xmx4g"})
+    md = os.path.join(workdir, "vecmd")
+    p = subprocess.run(["tlc", "-workers", "1", "-metadir", md, "-cleanup", "-noGenerateSpecTE", "-config", cfg, "ServerSession_Vec.tla"],
+                       cwd=vf.SPEC, env=env, stdout=subprocess.PIPE, stderr=subprocess.STDOUT, text=True, timeout=900)
+    shutil.rmtree(md, ignore_errors=True)
+    if not os.path.exists(out):
+        raise vf.ToolError("TLC did not write the PDU universe:\n" + p.stdout[-2000:])
+    return json.load(open(out))
+
+
+def gen_universe_scenarios(rng, pdus, sid0=0, per_scenario=150):
+    scs = []
+    for framing in ("tcp", "rtu"):
+        items = [p for p in pdus if framing == "tcp" or rtu_delimitable(p)]
+        for i in range(0, len(items), per_scenario):
+            units = rng.choice([[1], [1, 2], [3, 17, 200]])
+            steps = []
+            tx = rng.randrange(60000)
+            for p in items[i:i + per_scenario]:
+                steps.append(rx(frame(framing, tx, pick_unit(rng, units, framing, 0.1), p)))
+                tx = (tx + 1) % 65536
+            scs.append(scenario(sid0 + len(scs), framing, units, steps, seed=rng.randrange(1000),
+                                holes=[{"u": units[0], "t": 2, "a": 1, "code": 4}, {"u": units[0], "t": 0, "a": 2, "code": 2}],
+                                auth=rng.choice([None, None, {"policy": "hash", "seed": 5, "role": "r"}]), tag="tlc-universe"))
+    return scs
